@@ -364,3 +364,95 @@ func TestTableFixed(t *testing.T) {
 	}
 	col.Done(t)
 }
+
+// A single-threaded program that the host cancels at a fixed point of its execution (synchronously, inside the
+// n-th host write - the way a host implements `exit` or a stop button) is stopped at the same place every time:
+// when the program notices the cancellation must not depend on goroutine timing.
+var cancelProgs = map[string]string{
+	"print-loop": "fn main() { let i = 0; while i < 4000 { i += 1; println(\"line\", i); } println(\"done\"); }\n",
+	"calls": "fn f(x: int) -> int { if x % 3 == 0 { println(\"f\", x); } x + 1 }\nfn main() { let i = 0; while i < 6000 { i = f(i); } println(\"done\", i); }\n",
+	"try-loop": "fn main() { let i = 0; loop { i += 1; try { if i % 2 == 0 { throw(\"t\"); } println(\"odd\", i); } catch e { println(\"even\", i); } if i > 5000 { break; } } }\n",
+	"for-lists": "fn main() { let l = [1, 2, 3, 4, 5, 6, 7, 8]; for a in l { for b in l { for c in l { println(a, b, c); } } } }\n",
+}
+
+type CancelCase struct {
+	px.ProgCase
+	Backend string
+	AtWrite int
+	Reps    int
+}
+
+func checkCancelPoint(c CancelCase) *pk.Failure {
+	req := c.Request(c.Backend)
+	req.Rep = c.Reps
+	req.CancelAtWrite = c.AtWrite
+	resp := px.Pool().Exec(req)
+	if f := px.SandboxFailure("cancelpoint", resp); f != nil {
+		f.Msg = px.ProgText(c.ProgCase) + "\n" + f.Msg
+		return f
+	}
+	if resp.Inconclusive || len(resp.Reps) < 2 {
+		pk.Inconclusive()
+		return nil
+	}
+	first := ""
+	for i, rep := range resp.Reps {
+		if len(rep.Runs) != 1 {
+			return pk.Failf("cancelpoint", "table-rejected", "the table program did not run\n%s", px.ProgText(c.ProgCase))
+		}
+		r := rep.Runs[0]
+		s := fmt.Sprintf("outcome=%s/%s writes=%d last=%q", r.Outcome.Class, r.Outcome.Kind, len(r.Writes), last(r.Writes))
+		pk.Extra("cancelled-runs-compared", 1)
+		if i == 0 {
+			first = s
+			if r.Outcome.Class == "ok" {
+				return pk.Failf("cancelpoint", "not-cancelled", "the host cancelled at write %d but the program ran to completion (%s)\n%s", c.AtWrite, s, px.ProgText(c.ProgCase))
+			}
+			continue
+		}
+		if s != first {
+			return pk.Failf("cancelpoint", "stop-point-differs:"+c.Backend, "cancelled at write %d on %s: repetition %d stopped elsewhere\n  first: %s\n  now:   %s\n%s", c.AtWrite, c.Backend, i, first, s, px.ProgText(c.ProgCase))
+		}
+	}
+	return nil
+}
+
+func last(xs []string) string {
+	if len(xs) == 0 {
+		return ""
+	}
+	return xs[len(xs)-1]
+}
+
+func init() { pk.Reg("cancelpoint", checkCancelPoint) }
+
+func TestTableCancelPoint(t *testing.T) {
+	pk.SkipIfReplay(t)
+	col := pk.NewCollector()
+	names := make([]string, 0, len(cancelProgs))
+	for n := range cancelProgs {
+		names = append(names, n)
+	}
+	sort.Strings(names)
+	k := 0
+	for _, n := range names {
+		for _, be := range []string{"vm", "tree"} {
+			for _, at := range []int{1, 3, 17, 200} {
+				k++
+				if !pk.Mine(k) {
+					continue
+				}
+				c := CancelCase{ProgCase: px.ProgCase{Modules: map[string]string{"main": cancelProgs[n]}, Entry: "main", Limits: sb.DefaultLimits(), Note: n}, Backend: be, AtWrite: at, Reps: pk.Scale(12, 60)}
+				pk.Eval()
+				pk.NonTrivial(fmt.Sprint(n, be, at), map[string]any{"program": n, "backend": be, "cancel_at_write": at, "reps": c.Reps})
+				f := checkCancelPoint(c)
+				if f != nil {
+					f.Sig = f.Sig + ":" + n
+				}
+				col.Report(c, f)
+			}
+		}
+	}
+	pk.Exhaustive("cancel-point")
+	col.Done(t)
+}
